@@ -2,14 +2,18 @@
 
 package parquet
 
-import "bytes"
+import (
+	"bytes"
+	"sort"
+)
 
 // C17.K2 on whole files: a writer that has written one file and is Reset onto a
 // new output produces, for the same rows, byte for byte the file a freshly
 // constructed writer produces: nothing of the first file (row groups, offsets,
 // statistics, dictionaries, bloom filters, page index, key-value metadata)
-// leaks into the second. The second file's rows carry a symbolic byte, so the
-// equality is over all contents.
+// leaks into the second, whether the first file was closed, abandoned with
+// rows pending, or failed on its sink. The second file's rows carry a symbolic
+// byte, so the equality is over all contents.
 
 func verifWriteAll[T any](w *GenericWriter[T], batches [][]T, flushBetween bool) bool {
 	for i, b := range batches {
@@ -49,10 +53,29 @@ func VerifH_C17_resetWholeFile() {
 
 func verifResetEquiv[T any](first, second [][]T, opts []WriterOption, flush bool) {
 	bufA, bufB, bufC := new(bytes.Buffer), new(bytes.Buffer), new(bytes.Buffer)
-	w := NewGenericWriter[T](bufA, opts...)
-	if !verifWriteAll(w, first, true) {
-		vAssert(false, "first file is written")
-		return
+	var w *GenericWriter[T]
+	switch vChoose("firstFile", 0, 2) {
+	case 0: // written and closed
+		w = NewGenericWriter[T](bufA, opts...)
+		if !verifWriteAll(w, first, true) {
+			vAssert(false, "first file is written")
+			return
+		}
+	case 1: // abandoned: rows written (some flushed), never closed
+		w = NewGenericWriter[T](bufA, opts...)
+		for i, b := range first {
+			if _, err := w.Write(b); err != nil {
+				vAssert(false, "first file accepts rows")
+				return
+			}
+			if i == 0 && len(first) > 1 {
+				w.Flush()
+			}
+		}
+	case 2: // failed: the sink refuses bytes from some offset on; errors are expected
+		sink := &verifSink{limit: vChoose("firstFileFaultAt", 0, 2) * 40}
+		w = NewGenericWriter[T](sink, opts...)
+		verifWriteAll(w, first, true)
 	}
 	w.Reset(bufB)
 	if !verifWriteAll(w, second, flush) {
@@ -82,4 +105,50 @@ func VerifH_C17_resetWholeFileDictionary() {
 	second := [][]verifRecH{{{ID: 21, Name: vString("name", 1), Tags: []int32{4}}}, {{ID: 22, Name: "first"}}}
 	verifResetEquiv(first, second, opts, vChoose("flushBetween", 0, 1) == 1)
 	vCover("reset")
+}
+
+// A GenericBuffer reused through Reset holds exactly the rows written after the
+// Reset: the file made from it equals the file made from a fresh buffer.
+func VerifH_C17_bufferResetWholeFile() {
+	vUnwind(1 << 16)
+	first := []verifRecH{{ID: 11, Name: "first", Tags: []int32{1, 2, 3}}, {ID: 12, Name: "file"}, {ID: 13, Name: "more", Tags: []int32{9}}}
+	second := []verifRecH{{ID: 21, Name: vString("name", 1), Tags: []int32{4}}, {ID: 22, Name: "first"}}
+	var bopts []RowGroupOption
+	sorted := vChoose("sorted", 0, 1) == 1
+	if sorted {
+		bopts = append(bopts, SortingRowGroupConfig(SortingColumns(Descending("id"))))
+	}
+	reused := NewGenericBuffer[verifRecH](bopts...)
+	if _, err := reused.Write(first); err != nil {
+		vAssert(false, "buffer accepts rows")
+		return
+	}
+	if sorted {
+		sort.Sort(reused)
+	}
+	reused.Reset()
+	fresh := NewGenericBuffer[verifRecH](bopts...)
+	for _, b := range []*GenericBuffer[verifRecH]{reused, fresh} {
+		if _, err := b.Write(second); err != nil {
+			vAssert(false, "buffer accepts rows")
+			return
+		}
+		if sorted {
+			sort.Sort(b)
+		}
+	}
+	out := [2]*bytes.Buffer{new(bytes.Buffer), new(bytes.Buffer)}
+	for i, b := range []*GenericBuffer[verifRecH]{reused, fresh} {
+		w := NewGenericWriter[verifRecH](out[i])
+		if _, err := w.WriteRowGroup(b); err != nil {
+			vAssert(false, "row group is written")
+			return
+		}
+		if err := w.Close(); err != nil {
+			vAssert(false, "file closes")
+			return
+		}
+	}
+	vAssert(vBytesEq(out[0].Bytes(), out[1].Bytes()), "a buffer reused through Reset produces the same file as a fresh one")
+	vCover("buffer reset")
 }
